@@ -43,6 +43,7 @@ ASSUMPTIONS = [
     "(years 1..9999); generators stay within it",
 ]
 TRUSTED = []
+ORACLE_LIMIT = {"quick": 100000, "thorough": 1000000}
 EXPLORED_ONLY = [
     "ms_of_today(float): modelled on the integer binary64 arithmetic and compared bit for bit (stream ms_of_today), "
     "no theorem; the oracle only asks |result - exact milliseconds of the day| <= 1 (the code adds the fractional "
@@ -51,7 +52,8 @@ EXPLORED_ONLY = [
     "Model/CdsFloat.v and Model/CdsSoftFloat.v and validated by bit-exact correspondence on every run; the theorems "
     "C14_unix_seconds_close / C14_datetime_exact are about that transcription",
     "views cached by from_datetime (the datetime passed in and dt.timestamp()): correspondence + oracle only",
-    "naive datetimes / non-UTC tzinfo passed to from_datetime: not generated (local time zone database)",
+    "naive datetimes passed to from_datetime: not generated (they depend on the local time zone database); aware "
+    "datetimes in fixed-offset zones other than UTC are generated (op 416) and behave as the same instant in UTC",
 ]
 
 
@@ -105,6 +107,16 @@ def impl(op, a):
         dt = EPOCH + D.timedelta(days=a[0][0], seconds=a[0][1], microseconds=a[0][2])
         assert dt.tzinfo is UTC
         return views(C.from_datetime(dt))
+    if op == 416:
+        dt = EPOCH + D.timedelta(days=a[0][0], seconds=a[0][1], microseconds=a[0][2])
+        dt = dt.astimezone(D.timezone(D.timedelta(minutes=a[1][0])))
+        return views(C.from_datetime(dt))
+    if op == 417:
+        t = C(a[0][0], a[0][1])
+        tds = a[1]
+        for k in range(0, len(tds) - 2, 3):
+            t += D.timedelta(days=tds[k], seconds=tds[k + 1], microseconds=tds[k + 2])
+        return views(t) + [[t.len_packed]]
     if op == 407:
         return views(C(a[0][0], a[0][1]))
     if op == 409:
@@ -228,7 +240,7 @@ def streams(tier, rng):
             cases.append((405, [[d, ms], list(td)]))
     yield "add_boundaries", "exact", cases
     cases = []
-    for _ in range(40000 if big else 5000):
+    for _ in range(100000 if big else 5000):
         t = rand_ts(rng)
         r = rng.random()
         if r < 0.5:
@@ -242,6 +254,19 @@ def streams(tier, rng):
             td = [rng.randrange(0, 3), rng.randrange(86400), rng.randrange(10 ** 6)]
         cases.append((405, [t, td]))
     yield "add_random", "exact", cases
+    # histories: the same object incremented several times
+    cases = []
+    for _ in range(10000 if big else 1500):
+        t = rand_ts(rng)
+        tds = []
+        for _ in range(rng.randrange(0, 6)):
+            r = rng.random()
+            if r < 0.3:     # land exactly on midnight
+                tds += [0, 0, 0] if not tds else [0, 86399, 999000 + rng.randrange(2) * 1000 - 1000 * rng.randrange(2)]
+            else:
+                tds += [rng.randrange(0, 3) if r < 0.9 else rng.randrange(0, 70000), rng.randrange(86400), rng.randrange(10 ** 6)]
+        cases.append((417, [t, tds]))
+    yield "add_histories", "exact", cases
     # 6. from_datetime
     cases = []
     for ud, sod, us in itertools.product(UDS, SODS, USS):
@@ -250,16 +275,19 @@ def streams(tier, rng):
         cases.append((406, [[ud, rng.choice(SODS), rng.choice(USS)]]))
     yield "from_datetime_boundaries", "exact", cases
     cases = []
-    for _ in range(60000 if big else 8000):
+    for _ in range(200000 if big else 8000):
         ud = rng.randrange(UD_MIN, UD_MAX + 1) if rng.random() < 0.8 else rng.randrange(UD_MIN, 1)
         sod = rng.randrange(86400)
         r = rng.random()
         us = rng.randrange(10 ** 6) if r < 0.5 else rng.randrange(1000) * 1000 if r < 0.9 else rng.choice(USS)
         cases.append((406, [[ud, sod, us]]))
+    for _ in range(2000 if big else 400):     # the same instants seen from other fixed-offset zones
+        ud, sod, us = rng.randrange(UD_MIN, UD_MAX + 1), rng.randrange(86400), rng.choice(USS + [rng.randrange(10 ** 6)])
+        cases.append((416, [[ud, sod, us], [rng.choice([0, 60, -60, 330, -480, 765, -720, 840, 1, -1439, 1439])]]))
     yield "from_datetime_random", "exact", cases
     # 7. views on random pairs (incl. ms beyond a day as decoded from raw octets)
     cases = []
-    for _ in range(60000 if big else 8000):
+    for _ in range(400000 if big else 8000):
         t = rand_ts(rng)
         if rng.random() < 0.05:
             t[1] = rng.randrange(2 ** 32)
@@ -370,7 +398,23 @@ def oracle(case, ires, sres):
         if ires[1] != [ed, ems]:
             return ("C14/CdsShortTimestamp.__add__/normalised-sum", "%s + %s = %s, integer arithmetic gives %s" % (t, td, ires[1], [ed, ems]))
         return check_views("C14/CdsShortTimestamp.__add__", [ed, ems], ires)
-    if op == 406:
+    if op == 417:
+        t, tds = a
+        if not ts_valid(t):
+            return None
+        total = t[0] * MSPD + t[1]
+        for k in range(0, len(tds) - 2, 3):
+            total += tds[k] * MSPD + tds[k + 1] * 1000 + tds[k + 2] // 1000
+            if total // MSPD > 65535:
+                if not err or code != 8:
+                    return ("C14/CdsShortTimestamp.__add__/overflow", "%s += %s: not refused with OverflowError: %s" % (t, tds, ires))
+                return None
+        if err:
+            return ("C14/CdsShortTimestamp.__add__/refuses-valid", "%s += %s -> %s" % (t, tds, ires))
+        if ires[4] != [7]:
+            return ("C14/CdsShortTimestamp.len_packed", "%s" % (ires,))
+        return check_views("C14/CdsShortTimestamp.__add__", [total // MSPD, total % MSPD], ires)
+    if op in (406, 416):
         ud, sod, us = a[0]
         if not (UD_MIN <= ud <= UD_MAX):
             return None
